@@ -117,22 +117,48 @@ def run(repo: Repo, chk: Check, thorough: bool = False) -> None:
     sv = next(iter(statusv))
     sets = [n for n in mn.walk() if isinstance(n, ast.Assign) and any(isinstance(t, ast.Name) and t.id == sv for t in n.targets)]
     by_val: Dict[object, List[ast.Assign]] = {}
-    for s in sets:
-        v0 = s.value
+    helper_conds: Dict[int, List[str]] = {}      # id(assign in main) -> for a status handed back by a private helper: the conditions of the `return 2` sites
+    n_two_sites = 0
+
+    def _const_of(v0: Optional[ast.AST], mod: object) -> Optional[ast.Constant]:
         if isinstance(v0, ast.Name) and v0.id in mn.mod.assigns:      # a named status (`EXIT_PARSE_ERRORS = 2`)
             v0 = mn.mod.assigns[v0.id]
-        if isinstance(v0, ast.Constant):
-            by_val.setdefault(v0.value, []).append(s)
+        return v0 if isinstance(v0, ast.Constant) else None
+    from ..util import expanded_text as _xt16
+    for s in sets:
+        c0 = _const_of(s.value, mn.mod)
+        if c0 is not None:
+            by_val.setdefault(c0.value, []).append(s)
+            n_two_sites += c0.value == 2
+        elif isinstance(s.value, ast.Call) and isinstance(s.value.func, ast.Name) and s.value.func.id.startswith('_') and f'{mn.mod.name}.{s.value.func.id}' in repo.funcs:
+            # `exitcode = _report_parse_errors(system)`: the values are the constants the helper returns, each under the conditions that dominate the return
+            hg = repo.funcs[f'{mn.mod.name}.{s.value.func.id}']
+            chg = CFG(hg)
+            for r in [x for x in hg.walk() if isinstance(x, ast.Return)]:
+                cr = _const_of(r.value, hg.mod)
+                if cr is None:
+                    continue
+                if cr.value != 0:
+                    by_val.setdefault(cr.value, [])
+                    if s not in by_val[cr.value]:
+                        by_val[cr.value].append(s)
+                if cr.value == 2:
+                    n_two_sites += 1
+                    helper_conds.setdefault(id(s), []).append(' '.join(_xt16(hg, t_) + f' [{pol_}]' for t_, pol_ in chg.dominating_tests(r)))
     ok0 = 0 in by_val and all(cfgm.dominates(by_val[0][0], s, no_exc=True) for v, l in by_val.items() if v != 0 for s in l)
     chk.ob('R16.3', 'driver.main :: exit status starts at 0', ok0, 'exitcode = 0 first', mn.loc)
     twos = by_val.get(2, [])
     ok2 = bool(twos)
     for s in twos:
+        if id(s) in helper_conds:
+            if not all('parse_errors' in c for c in helper_conds[id(s)]):
+                ok2 = False
+            continue
         conds = [norm(p.test) for p in parents(s) if isinstance(p, ast.If)]
         pe = {t.id for n in mn.walk() if isinstance(n, ast.Assign) and 'parse_errors' in norm(n.value) for t in n.targets if isinstance(t, ast.Name)}
         if not any('parse_errors' in c or any(v == c or f'{v} ' in c or f' {v}' in c for v in pe) for c in conds):
             ok2 = False
-    chk.ob('R16.3', 'driver.main :: status 2 exactly under recorded parse errors', ok2 and len(twos) == 2,
+    chk.ob('R16.3', 'driver.main :: status 2 exactly under recorded parse errors', ok2 and n_two_sites == 2,
            "parse_errors['docstring'] non-empty, or any(parse_errors.values())" if ok2 else 'exit status 2 is set under another condition', mn.loc)
     threes = by_val.get(3, [])
     ok3 = len(threes) == 1
@@ -190,13 +216,25 @@ def run(repo: Repo, chk: Check, thorough: bool = False) -> None:
     rp_ = repo.func(f'{M}.Documentable.report')
     fs = [n for n in rp_.walk() if isinstance(n, ast.JoinedStr)]
     parts = [norm(v.value) for j in fs for v in j.values if isinstance(v, ast.FormattedValue)]
-    lnv = {t.id for n in rp_.walk() if isinstance(n, (ast.Assign, ast.AugAssign, ast.AnnAssign))
-           for t in (n.targets if isinstance(n, ast.Assign) else [n.target]) if isinstance(t, ast.Name)}
+    lnv = {x.id for n in rp_.walk() if isinstance(n, (ast.Assign, ast.AugAssign, ast.AnnAssign))
+           for t in (n.targets if isinstance(n, ast.Assign) else [n.target]) for x in (t.elts if isinstance(t, ast.Tuple) else [t]) if isinstance(x, ast.Name)}
     # the file part: self.description, or a local that only ever holds the description of an object (its own, or the module a docstring was assigned in)
-    desc_locals = {t.id for n in rp_.walk() if isinstance(n, ast.Assign) and isinstance(n.value, ast.Attribute) and n.value.attr == 'description'
-                   for t in n.targets if isinstance(t, ast.Name)}
-    desc_locals = {d_ for d_ in desc_locals if all(isinstance(n.value, ast.Attribute) and n.value.attr == 'description' for n in rp_.walk()
-                                                   if isinstance(n, ast.Assign) and any(isinstance(t, ast.Name) and t.id == d_ for t in n.targets))}
+    def _desc_locals(g: Func) -> Set[str]:
+        dl = {t.id for n in g.walk() if isinstance(n, ast.Assign) and isinstance(n.value, ast.Attribute) and n.value.attr == 'description'
+              for t in n.targets if isinstance(t, ast.Name)}
+        return {d_ for d_ in dl if all(isinstance(n.value, ast.Attribute) and n.value.attr == 'description' for n in g.walk()
+                                       if isinstance(n, ast.Assign) and any(isinstance(t, ast.Name) and t.id == d_ for t in n.targets))}
+    desc_locals = _desc_locals(rp_)
+    # ... or a local unpacked from a private helper of the class at a position where every returned tuple holds such a description
+    # (`description, linenumber = self._report_location(section, lineno_offset)`)
+    for a_ in rp_.walk():
+        if isinstance(a_, ast.Assign) and isinstance(a_.targets[0], ast.Tuple) and isinstance(a_.value, ast.Call) and call_name(a_.value).startswith('_'):
+            for g_ in [g for g in repo.funcs.values() if g.cls is rp_.cls and g.name == call_name(a_.value)]:
+                gd = _desc_locals(g_)
+                rets_ = [r.value for r in g_.walk() if isinstance(r, ast.Return) and isinstance(r.value, ast.Tuple)]
+                for k_, t_ in enumerate(a_.targets[0].elts):
+                    if isinstance(t_, ast.Name) and rets_ and all(len(r.elts) > k_ and (norm(r.elts[k_]) in gd or norm(r.elts[k_]) == 'self.description') for r in rets_):
+                        desc_locals.add(t_.id)
     ok = ('self.description' in parts or any(p_ in desc_locals for p_ in parts)) and any(p_ in lnv - desc_locals for p_ in parts)
     chk.ob('R16.4', f'{M}.Documentable.report :: message is <file>:<line>: <text>', ok, "f'{self.description}:{linenumber}: {descr}'" if ok else
            f'the message is built from {parts}', rp_.loc)
@@ -383,7 +421,8 @@ def run(repo: Repo, chk: Check, thorough: bool = False) -> None:
             any(isinstance(x, ast.Attribute) and x.attr in ('currentMod', 'module') for x in ast.walk(n.value))]
     rp = repo.func('pydoctor.model.Documentable.report')
     attrs = {t.attr for n in recs for t in n.targets if isinstance(t, ast.Attribute)}
-    used = any(isinstance(x, ast.Attribute) and x.attr in attrs and dotted(x.value) == 'self' for x in rp.walk())
+    from ..util import scope_nodes as _scope16
+    used = any(isinstance(x, ast.Attribute) and x.attr in attrs and dotted(x.value) == 'self' for x in _scope16(repo, rp))
     chk.ob('R16.4', 'pydoctor.astbuilder.ModuleVistor._handleDocstringUpdate :: a docstring assigned from another module is reported against that module\'s file', bool(recs) and used,
            f'recorded in {sorted(attrs)} and read by Documentable.report' if recs and used else
            'the text and its line are stored on the object, the file is not: a problem in `f.__doc__ = """... L{bad_one} ..."""` written in pkg/docs.py is reported as '
